@@ -169,7 +169,10 @@ def runLine (r : Report) (sec : Nat) (l : Line) : Report := Id.run do
     return r.violation sec l.idx s!"deadlock: the call did not return (goroutines left={left}) op=[{opS}]"
   if stallT ≠ 0 then
     r := r.violation sec l.idx s!"a stalled user function was never released op=[{opS}]"
-  if left ≠ 0 then
+  -- a reducer that writes three times is outside the property (its third write can never be received)
+  let inContract := (writesOf c.rscript).length ≤ 2
+  if ¬ inContract then r := r.addCover "reducer-writes>2-out-of-contract"
+  if left ≠ 0 ∧ inContract then
     r := r.violation sec l.idx s!"goroutine leak: {left} goroutine(s) of the call alive after every user function returned res={resS} op=[{opS}]"
   if peak hist > c.workers then
     r := r.violation sec l.idx s!"mapper cap: {peak hist} mappers ran concurrently, workers={c.workers} op=[{opS}]"
@@ -212,7 +215,7 @@ def runLine (r : Report) (sec : Nat) (l : Line) : Report := Id.run do
     match result fin with
     | none => r := r.mismatch sec l.idx s!"model: caller not finished under schedule {k}" resS
     | some mr =>
-      if aliveCount c fin ≠ 0 then
+      if aliveCount c fin ≠ 0 ∧ inContract then
         r := r.mismatch sec l.idx s!"model: {aliveCount c fin} goroutine(s) alive at the end of schedule {k}" resS
       if ¬ allowed c mr then
         r := r.mismatch sec l.idx s!"model: outcome {showRes "mr" mr} of schedule {k} not in the table" resS
